@@ -42,7 +42,7 @@ def build_d(d):
 SYMS = ["{-}", "{o}", "[-]", "[o]", "/_/", "-^-", "-->"]
 
 
-def text_lines(s):
+def text_lines(s, with_status=False):
     out = []
     for line in s.split("\n"):
         if line == "":
@@ -52,6 +52,9 @@ def text_lines(s):
         rest = line[n:]
         sym = rest.split(" ", 1)[0]
         name = rest[len(sym) + 1:] if sym in SYMS else "?" + rest
+        if with_status:
+            # "<name> [<status symbol>]" (xhtml status symbols were reduced to their text above)
+            name = re.sub(r" \[[^\]]*\]$", "", name) if name.endswith("]") else "!" + name
         out.append("%d:%s" % (n, enc_name(name)))
     return out
 
@@ -77,17 +80,18 @@ def run_rd(scn):
     for op in scn.ops:
         out.append("> " + op)
         t = op.split()
-        if t[0] == "text":
+        if t[0] in ("text", "texts"):
+            ss = t[0] == "texts"
             mode = scn.meta.get("mode", "ascii")
             if mode == "xhtml":
-                s = py_trees.display.xhtml_tree(root, indent=int(t[1]))
+                s = py_trees.display.xhtml_tree(root, indent=int(t[1]), show_status=ss)
                 s = s.replace("<code>\n", "").replace("</code>", "").replace("<br/>\n", "\n")
                 s = s.replace("<text>&#xa0;</text>", " ")
                 s = re.sub(r"<text[^>]*>([^<]*)</text>", lambda m: m.group(1).replace("&gt;", ">"), s)
                 s = s.replace("<b>", "").replace("</b>", "")
             else:
-                s = py_trees.display.ascii_tree(root, indent=int(t[1]))
-            out.append("X " + " ".join(text_lines(s)))
+                s = py_trees.display.ascii_tree(root, indent=int(t[1]), show_status=ss)
+            out.append("X " + " ".join(text_lines(s, ss)))
         elif t[0] == "dot":
             g = py_trees.display.dot_tree(root, visibility_level=py_trees.common.VisibilityLevel(int(t[1])),
                                           collapse_decorators=t[2] == "1")
